@@ -413,6 +413,16 @@ def gen_inprocess(rng, n):
         from .c02 import gen_edit_case
         r, kind, info = gen_edit_case(rng, malformed=True)
         reqs.append("panic_" + r)
+        # identifiers of the only shapes IdentifierExtractor hands to find_compound_variants
+        if rng.random() < 0.5:
+            ident = rng.choice(["foo", "my", "Foo", "_x", "a9"]) + "".join(
+                rng.choice(["_", "-", ".", "foo", "bar", "Foo", "BAR", "s", "2", "Baz", "x"]) for _ in range(rng.randint(1, 6)))
+        else:
+            tw = ["Ab", "Cd", "Foo", "Bar", "Foos", "Baz", "Fo", "Foobar"]
+            ident = rng.choice(tw) + "".join(rng.choice([" ", "\u00a0", "\u2003", "\u2028", "\u3000", "  "]) + rng.choice(tw)
+                                             for _ in range(rng.randint(1, 5)))
+        reqs.append(f"panic_compound {hexs(ident)} {hexs(rng.choice(['foo_bar', 'Foo Bar', 'foo', 'fooBar', 'Bar']))} "
+                    f"{hexs(rng.choice(['baz_qux', 'Qux', 'Baz Qux', 'q']))}")
     return reqs
 
 
@@ -434,7 +444,10 @@ def inprocess(ctx, n):
             first = first or (r, i, m, "operation not wired")
             continue
         # the model answers `nopanic` (proved safe), `panic` (exact characterisation says the code panics today) or `any`
-        if i == "panic" and m in ("nopanic", "no-empty-key"):
+        if op == "panic_compound" and i == "panic":
+            first = first or (r, i, m, "find_compound_variants panics on an identifier of a shape the identifier extractor produces "
+                                       "(latent slice in untouched_text_survives_rejoin, see classification.json)")
+        elif i == "panic" and m in ("nopanic", "no-empty-key"):
             first = first or (r, i, m, "the implementation panics where the model proves it cannot")
         elif i == "empty-key" and m == "no-empty-key":
             first = first or (r, i, m, "the variant map has the empty string as a key although the model proves it cannot")
